@@ -5,15 +5,19 @@ that attributes race-detector reports to cases."""
 import json, os, re, subprocess, tempfile
 from vlib import *
 
-# set to True once the proposed repairs are committed to /repo (extension pre-check in
-# importFileWithExtensions / importResultWithExtensions, RLock in Lookup / LookupExtension):
-# the checks then compare against the repaired model and the full theorems become the claimed ones
-REPAIRED = os.environ.get("VERIF_SYMBOLS_REPAIRED", "0") == "1"   # or set to True once the fix is committed
+# Two independent switches, one per repair of linker/symbols.go:
+#   LOCK_REPAIRED  Lookup / LookupExtension take the read lock (committed to /repo as 3a583125): ON.
+#                  The model of the lookups is lookup_prog_fx, C16 claims the full lock-discipline theorems,
+#                  concurrent lookups run in the plain build and in the race shard.
+#   EXT_REPAIRED   extension numbers pre-checked before the commit (proposed, NOT committed): OFF.
+#                  The model of Import is import_gen false; C17 claims the refuted / partial theorems.
+LOCK_REPAIRED = os.environ.get("VERIF_SYMBOLS_LOCK_REPAIRED", "1") == "1"
+EXT_REPAIRED = os.environ.get("VERIF_SYMBOLS_EXT_REPAIRED", "0") == "1"
 
 COQ_FILES = ["Common/Corr.v", "Model/Symbols.v", "Proofs/Symbols.v"]
 HEADER = ("From Coq Require Import List NArith ZArith Bool.\nImport ListNotations.\n"
           "From PV Require Import Common.Corr Model.Symbols.\nOpen Scope N_scope.\n")
-CHK = "sym_chk_fx" if REPAIRED else "sym_chk"
+CHK = {(False, False): "sym_chk", (True, False): "sym_chk_lk", (False, True): "sym_chk_ext", (True, True): "sym_chk_fx"}[(LOCK_REPAIRED, EXT_REPAIRED)]
 
 # ---------------------------------------------------------------- names
 COMP = {}
@@ -211,48 +215,78 @@ def coq_part_case(inp, walks, fs, anyerr, look):
 RACE_RE = re.compile(r"WARNING: DATA RACE")
 
 
-def run_race(ctx, inputs, timeout=600):
-    """Runs the -race build of the family one case at a time on one process and returns
-    (outputs, reports) where reports[i] is the race-detector text printed while case i ran."""
+def run_race(ctx, inputs, timeout=900):
+    """Runs the -race build of the family one case at a time and returns (outputs, reports) where
+    reports[i] is what the race detector (and the Go runtime, if it aborts the process) printed while
+    case i ran.  A case that kills the process is answered {"crash": ...}; the harness is restarted
+    for the remaining cases."""
     ctx.impl("symbols", [], race=True)          # builds (cached) and records the binary
     binp = ctx.bins[("symbols", True)]
-    logbase = tempfile.mktemp(prefix="race-", dir=os.path.join(CACHE))
-    env = dict(os.environ, GORACE="halt_on_error=0 log_path=%s" % logbase)
-    p = subprocess.Popen(["timeout", str(timeout), binp], stdin=subprocess.PIPE, stdout=subprocess.PIPE,
-                         stderr=subprocess.DEVNULL, text=True, env=env)
-    logfile = "%s.%d" % (logbase, 0)
     outs, reports = [], []
-    seen = 0
-    try:
-        for x in inputs:
-            p.stdin.write(json.dumps(x) + "\n")
-            p.stdin.flush()
-            line = p.stdout.readline()
-            if not line:
-                outs.append({"crash": "race harness exited"})
-                reports.append("")
-                break
-            try:
-                outs.append(json.loads(line))
-            except Exception:
-                outs.append({"crash": "unparsable: " + line[:200]})
+    k = 0
+    while k < len(inputs):
+        logbase = tempfile.mktemp(prefix="race-", dir=CACHE)
+        errpath = logbase + ".stderr"
+        env = dict(os.environ, GORACE="halt_on_error=0 log_path=%s" % logbase)
+        errf = open(errpath, "w")
+        p = subprocess.Popen(["timeout", str(timeout), binp], stdin=subprocess.PIPE, stdout=subprocess.PIPE,
+                             stderr=errf, text=True, env=env)
+        seen = 0
+
+        def logs():
             txt = ""
-            for fn in [f for f in os.listdir(CACHE) if f.startswith(os.path.basename(logbase))]:
+            for fn in sorted(f for f in os.listdir(CACHE) if f.startswith(os.path.basename(logbase)) and not f.endswith(".stderr")):
                 txt += open(os.path.join(CACHE, fn)).read()
-            reports.append(txt[seen:])
-            seen = len(txt)
-    finally:
+            return txt
         try:
-            p.stdin.close()
-        except Exception:
-            pass
-        p.wait()
-        for fn in [f for f in os.listdir(CACHE) if f.startswith(os.path.basename(logbase))]:
-            os.remove(os.path.join(CACHE, fn))
-    while len(outs) < len(inputs):
-        outs.append({"crash": "race harness exited"})
-        reports.append("")
+            while k < len(inputs):
+                try:
+                    p.stdin.write(json.dumps(inputs[k]) + "\n")
+                    p.stdin.flush()
+                    line = p.stdout.readline()
+                except BrokenPipeError:
+                    line = ""
+                txt = logs()
+                if not line:
+                    p.wait()
+                    errf.flush()
+                    fatal = open(errpath).read()
+                    outs.append({"crash": "race harness exited with %s" % p.returncode, "stderr": fatal[:3000]})
+                    reports.append(txt[seen:] + ("\n==================\n" + fatal[:6000] if fatal.strip() else ""))
+                    k += 1
+                    break
+                try:
+                    outs.append(json.loads(line))
+                except Exception:
+                    outs.append({"crash": "unparsable: " + line[:200]})
+                reports.append(txt[seen:])
+                seen = len(txt)
+                k += 1
+        finally:
+            try:
+                p.stdin.close()
+            except Exception:
+                pass
+            p.wait()
+            errf.close()
+            for fn in [f for f in os.listdir(CACHE) if f.startswith(os.path.basename(logbase))]:
+                os.remove(os.path.join(CACHE, fn))
     return outs, reports
+
+
+FATAL_RE = re.compile(r"fatal error: concurrent map (read and map write|writes|iteration and map write)")
+
+
+def fatal_of(out):
+    """(key, text) if the Go runtime aborted the process because of an unsynchronised map access."""
+    txt = out.get("stderr", "") if isinstance(out, dict) else ""
+    m = FATAL_RE.search(txt)
+    if not m:
+        return None
+    first = txt[m.start():].split("\n\n")[1] if "\n\n" in txt[m.start():] else txt[m.start():]
+    fr = re.findall(r"linker\.\(\*(?:Symbols|packageSymbols)\)\.(\w+)", first)
+    key = "lookup-without-rlock" if fr and fr[0] in ("Lookup", "LookupExtension") else "data-race"
+    return key, "the Go runtime aborts with '%s' in %s" % (m.group(0), fr[0] if fr else "?")
 
 
 def split_reports(txt):
